@@ -68,6 +68,8 @@ def item_value(name, i):
         "failure_c": lambda: (0xC123, None),
         "cancel": lambda: (0xFE00, None),
         "unknown": lambda: (0xFFF0, None),
+        "oor_big": lambda: (0x10000, None),
+        "oor_neg": lambda: (-1, None),
         "gen_warning": lambda: (0x0107, None),
         "status_ds_pending": lambda: (status_ds(0xFF00), mk_ds(i)),
         "status_ds_fail": lambda: (status_ds(0xA700, ErrorComment="boom", OffendingElement=[0x00100010]), None),
@@ -122,7 +124,7 @@ class StoreStub:
         return D()
 
 
-def run_qr(kind, seq, count=None, dest="ok", raise_at=None, pre=None, msg_id=7, cx_id=1, lose_after=None, abort_at=None):
+def run_qr(kind, seq, count=None, dest="ok", raise_at=None, pre=None, msg_id=7, cx_id=1, lose_after=None, abort_at=None, ts=IVRLE, items=None):
     """kind: find|get|move.  seq: list of alphabet names.  count: first yield
     of get/move (None -> number of P_* items).  raise_at: index at which the
     generator raises instead of yielding (len(seq) = after the last yield).
@@ -135,7 +137,7 @@ def run_qr(kind, seq, count=None, dest="ok", raise_at=None, pre=None, msg_id=7, 
     from pynetdicom.service_class import QueryRetrieveServiceClass
 
     uid = {"find": FIND, "get": GET, "move": MOVE}[kind]
-    assoc = stubs.make_assoc("acceptor", contexts=[(cx_id, uid, IVRLE, False, True), (cx_id + 2 if cx_id < 253 else 1, CT, IVRLE, True, True)])
+    assoc = stubs.make_assoc("acceptor", contexts=[(cx_id, uid, ts, False, True), (cx_id + 2 if cx_id < 253 else 1, CT, IVRLE, True, True)])
     outcomes = [SUBOP[s] for s in seq if s in SUBOP]
     store = StoreStub(outcomes, lose_after=lose_after)
     assoc.send_c_store = store.send_c_store
@@ -155,7 +157,7 @@ def run_qr(kind, seq, count=None, dest="ok", raise_at=None, pre=None, msg_id=7, 
             if abort_at == i:
                 event.assoc.abort()
             log.append(name)
-            yield item_value(name, i)
+            yield items[name]() if items and name in items else item_value(name, i)
         if raise_at == len(seq):
             raise Raise("handler failure")
 
@@ -179,7 +181,7 @@ def run_qr(kind, seq, count=None, dest="ok", raise_at=None, pre=None, msg_id=7, 
     req.Identifier = BytesIO(encode(mk_ds(0, False), True, True))
     if kind == "move":
         req.MoveDestination = "DEST"
-    cx = build_context(uid, IVRLE)
+    cx = build_context(uid, ts)
     cx.context_id = cx_id
     svc = QueryRetrieveServiceClass(assoc)
     exc = None
